@@ -30,6 +30,7 @@ func init() {
 }
 
 func runC19(p *an.Prog, r *an.Run, tier string) {
+	checkSurfaceClosed(p, r)
 	nz := p.Func("pool", "normalizeNodeURI")
 	conn := p.Method("pool", "VipnodePool", "connect")
 	if nz == nil || conn == nil {
@@ -672,6 +673,7 @@ func constStringThrough(v ssa.Value) (string, bool) {
 // ---------------------------------------------------------------------------
 
 func runC20(p *an.Prog, r *an.Run, tier string) {
+	checkSurfaceClosed(p, r)
 	start := p.Method("agent", "Agent", "Start")
 	serve := p.Method("agent", "Agent", "serveUpdates")
 	stop := p.Method("agent", "Agent", "Stop")
